@@ -31,7 +31,7 @@ set_option maxRecDepth 10000 in
 theorem process_slice_eq (mid : Nat) (c : SliceCtor) (idx : Nat) (bytes : Bytes)
     (hn : c.numSlices * C.SLICE_SIZE < 2 ^ 64) (hr : c.numReceived + 1 < 2 ^ 64) :
     SameOutcome (SliceConstructor.process_slice (reprSC mid c) idx (toNats bytes))
-      (mapRes (fun r => (reprSC mid r.1, r.2.map toNats)) reprCE (c.processSlice idx bytes)) := by
+      (mapRes (fun r => (reprSC mid r.1, r.2.map toNats)) (fun e => (reprCE e, reprSC mid c)) (c.processSlice idx bytes)) := by
   obtain ⟨n, nr, rc, d⟩ := c
   simp only [C.SLICE_SIZE] at hn hr
   unfold SliceConstructor.process_slice SliceCtor.processSlice
@@ -41,11 +41,11 @@ theorem process_slice_eq (mid : Nat) (c : SliceCtor) (idx : Nat) (bytes : Bytes)
   have hn1 : 1 ≤ n := by omega
   simp only [h1, decide_false, Bool.false_eq_true, if_false, Exec.bind_val, sub_val hn1]
   have hset : ∀ (dd : Bytes) (a b : Nat) (st : String) (st' : String), b = a + bytes.length →
-      ∀ (k : List Nat → Exec SChannelError (SliceConstructor × Option (List Nat)) (SliceConstructor × Option (List Nat)))
+      ∀ (k : List Nat → Exec (SChannelError × SliceConstructor) (SliceConstructor × Option (List Nat)) (SliceConstructor × Option (List Nat)))
         (k' : Bytes → Res ChanErr (SliceCtor × Option Bytes)),
-      (∀ x, SameOutcome (k (toNats x)).run (mapRes (fun r => (reprSC mid r.1, r.2.map toNats)) reprCE (k' x))) →
+      (∀ x, SameOutcome (k (toNats x)).run (mapRes (fun r => (reprSC mid r.1, r.2.map toNats)) (fun e => (reprCE e, reprSC mid ⟨n, nr, rc, d⟩)) (k' x))) →
       SameOutcome ((RustSem.copy_from_slice (toNats dd) a b (toNats bytes) st).bind k).run
-        (mapRes (fun r => (reprSC mid r.1, r.2.map toNats)) reprCE (setRange dd a bytes st' >>= k')) := by
+        (mapRes (fun r => (reprSC mid r.1, r.2.map toNats)) (fun e => (reprCE e, reprSC mid ⟨n, nr, rc, d⟩)) (setRange dd a bytes st' >>= k')) := by
     intro dd a b st st' hb k k' hk
     subst hb
     unfold RustSem.copy_from_slice setRange
@@ -64,10 +64,10 @@ theorem process_slice_eq (mid : Nat) (c : SliceCtor) (idx : Nat) (bytes : Bytes)
       SameOutcome
         (((if decide (nr' = n) = true then
             (Exec.ret (({ message_id := mid, num_slices := n, num_received_slices := nr', received := rc', sliced_data := [] } : SliceConstructor),
-              some (toNats x)) : Exec SChannelError _ SliceConstructor)
+              some (toNats x)) : Exec (SChannelError × SliceConstructor) _ SliceConstructor)
           else Exec.val ({ message_id := mid, num_slices := n, num_received_slices := nr', received := rc', sliced_data := toNats x } : SliceConstructor)).bind
             fun self => Exec.val (self, none)).run)
-        (mapRes (fun r => (reprSC mid r.1, r.2.map toNats)) reprCE
+        (mapRes (fun r => (reprSC mid r.1, r.2.map toNats)) (fun e => (reprCE e, reprSC mid ⟨n, nr, rc, d⟩))
           (if nr' = n then (pure (({ numSlices := n, numReceived := nr', received := rc', data := [] } : SliceCtor), some x) : Res ChanErr _)
            else pure (({ numSlices := n, numReceived := nr', received := rc', data := x } : SliceCtor), none))) := by
     intro nr' rc' x
